@@ -51,7 +51,7 @@ static void* walker(void* p) {
       }
       case 1: {
         ssize_t n = read(sv[k][0], &b, 1);
-        if (n != 1 || b != 'x') fmc_fail("seq: blocking read returned %zd (errno %d)", n, errno);
+        if (n != 1 || b != 'x') fmc_fail("seq: blocking read returned %zd (errno %d)", n, rt_errno());
         break;
       }
       case 2: fiber_signal_wait(&sig); break;
